@@ -362,8 +362,15 @@ func (im *Impl) Exec(o Op) (r Resp) {
 		ctx, cancel := context.WithCancel(im.ctxOf(o.Sid))
 		im.pend[req] = cancel
 		go func() {
+			c := completion{req: req}
+			defer func() { // a panic inside the call is this request's answer, not the end of the run
+				if p := recover(); p != nil {
+					c.err = fmt.Errorf("panic: %v", p)
+					im.done <- c
+				}
+			}()
 			lk, err := im.LS.Lock(ctx, o.Name, o.Size, o.Lt, o.Wt)
-			c := completion{req: req, err: err}
+			c.err = err
 			if lk != nil {
 				c.locked, c.key = lk.Locked, lk.Key
 			}
@@ -379,6 +386,9 @@ func (im *Impl) Exec(o Op) (r Resp) {
 					delete(im.pend, req)
 					cancel()
 					r.Err = ErrName(c.err)
+					if c.err != nil && strings.HasPrefix(c.err.Error(), "panic: ") {
+						r.Panic = c.err.Error()
+					}
 					if c.locked {
 						r.Ok = true
 						r.Key = im.noteKey(req, c.key)
